@@ -23,6 +23,48 @@ CHECKS = [
                 'final value of every touched/initialised in-segment word must equal the reference machine.',
         'note': 'trusts the reference machine; final memory observed through the DeviceMemory hook',
     },
+    {
+        'property_id': 'C06', 'level': 'exploration', 'design_ref': 'DESIGN.md 4 C06',
+        'technique': 'runtime monitoring: model-based oracle over observed writer->reader round trips (random call sequences, all versions)',
+        'text': 'Random writer call sequences (segments from 0 to the top of the address space, zero tails around the dense/lazy '
+                'threshold, shared data, boundary word values, deliberate flaws) are replayed on versions 0-3 and lzma presets; '
+                'the reader result must equal a 30-line model of what the calls mean (segments, words, invalidity outside), a '
+                'writer rejection must be the library write error, and corpus programs assembled at the four versions must load '
+                'identically.',
+        'note': 'trusts the call-sequence model; over-rejection by the writer is counted, not flagged (acceptance floor enforced)',
+    },
+    {
+        'property_id': 'C10', 'level': 'fault_enumeration', 'design_ref': 'DESIGN.md 4 C10',
+        'technique': 'runtime monitoring: fault enumeration (every torn-write prefix, single-field corruptions) with exception-type and independent consistency-predicate oracles',
+        'text': 'Every strict prefix of sampled writer-produced files (each crash offset of write_to_file), every header/segment '
+                'field set to boundary and neighbouring values, payload damage incl. inside the lzma stream, random and '
+                'structure-aware files: Reader must raise only FlipJumpReadFjmException, accepted prefixes must load the '
+                'original image, accepted files must satisfy an independently coded consistency predicate, and fjm_run.run '
+                'on accepted files must end in a termination or library exception (RLIMIT_AS + watchdog).',
+        'note': 'never-hangs restated as bounded progress (30 s per Reader call on files < 64 KiB); non-canonical but '
+                'consistent files are observations only',
+    },
+    {
+        'property_id': 'C11', 'level': 'exploration', 'design_ref': 'DESIGN.md 4 C11, 3.2',
+        'technique': 'compiler sanitizers (ASan+UBSan build of the current _fjcore.c) + allocation-fault injection + refcount/RSS monitors, llvm-cov coverage as evidence',
+        'text': 'The current _fjcore.c is rebuilt with clang -fsanitize=address,undefined (no recover) and driven with generated '
+                'images in every geometry x storage/loop configuration, a direct API fuzz of _fjcore.Memory (hostile segment '
+                'tables, any 64-bit address, accessors interleaved with run, callbacks that raise/return non-bools/re-enter '
+                'through get_word/set_word), reader-accepted corrupted files, and the N-th allocation failing; any sanitizer '
+                'report or dead worker is a violation with the journalled case. Held = zero reports on the observed runs with '
+                '>= 80% line coverage of _fjcore.c measured by llvm-cov on the same workloads.',
+        'note': 'a clean sanitizer run is not memory safety (red zones miss far OOB into live allocations); MSan/TSan do not apply; '
+                're-entrant __init__/add_segment/run from a device callback is outside the property and not generated',
+    },
+    {
+        'property_id': 'C17', 'level': 'exploration', 'design_ref': 'DESIGN.md 4 C17',
+        'technique': 'runtime monitoring: exhaustive small-space enumeration + model oracle (bit packing, keyboard polling protocol), StandardIO through real pipes',
+        'text': 'All 131071 bit sequences of length <= 16 are written to FixedIO, StandardIO and KeyboardIO and all 65793 input '
+                'byte strings of length <= 2 are read from FixedIO (exhaustive), plus random sequences to 4096 bits with '
+                'interleaved reads, keyboard event scripts x read counts against a polling-protocol model, and StandardIO in a '
+                'subprocess through real pipes under latin-1 and UTF-8 stdin.',
+        'note': 'interactive terminals and the pygame window are out of reach; StandardIO under UTF-8 stdin is a recorded known finding',
+    },
 ]
 
 _TODO = 'check not built yet in this session (work in progress; see DESIGN.md for the planned monitor)'
